@@ -24,6 +24,7 @@
     naming.nohandler <types.namespace> <module_path>                     → namespace | error   (string layer)
     enum.value <name> <member,…>                                         → S=<index|IndexError> A=…
     frag.relay | frag.dictiter | frag.subrelay | frag.subto | frag.classvar <text>      (string layer)
+    re.fullmatch | re.search | re.sub <pattern name> <text>              → none | ok <start>:<end> g1|g2|… (`~` = unset group) | <text>   (generated patterns)
     frag.initcall <value> <var_type>                                     → true | false | IndexError
     s! <op…>      the same op, printing the string layer's answer only (inputs outside the abstract layer's domain)
 -/
@@ -31,6 +32,7 @@ import Tranp.Driver.Common
 import Tranp.Model.ScopeStr
 import Tranp.Model.Naming
 import Tranp.Model.Fragment
+import Tranp.Generated.C08Regex
 
 namespace Tranp.Driver.Scope
 open Tranp Tranp.Scope Tranp.Driver
@@ -233,6 +235,26 @@ def step1 (st : St) : List String → St × String
   | ["frag.subrelay", t] => (st, Str.hex (Fragment.subCvarRelay (unhexD t)))
   | ["frag.subto", t] => (st, Str.hex (Fragment.subCvarTo (unhexD t)))
   | ["frag.classvar", t] => (st, Str.hex (Fragment.pluckClassVarName (unhexD t)))
+  | ["re.fullmatch", name, t] =>
+    match Generated.C08Regex.all.find? (fun nr => nr.1 == name) with
+    | none => (st, "bad-op")
+    | some (_, r) =>
+      let txt := unhexD t
+      (st, match Regex.fullmatch r txt with
+        | none => "none"
+        | some (en, caps) => s!"ok 0:{en} " ++ "|".intercalate ((List.range r.groups).map (fun i => match Regex.groupText txt caps (i + 1) with | some g => Str.hex g | none => "~")))
+  | ["re.search", name, t] =>
+    match Generated.C08Regex.all.find? (fun nr => nr.1 == name) with
+    | none => (st, "bad-op")
+    | some (_, r) =>
+      let txt := unhexD t
+      (st, match Regex.search r txt with
+        | none => "none"
+        | some (b, (en, caps)) => s!"ok {b}:{en} " ++ "|".intercalate ((List.range r.groups).map (fun i => match Regex.groupText txt caps (i + 1) with | some g => Str.hex g | none => "~")))
+  | ["re.sub", name, t] =>
+    match Generated.C08Regex.all.find? (fun nr => nr.1 == name) with
+    | none => (st, "bad-op")
+    | some (_, r) => (st, Str.hex (Regex.subEmpty r (unhexD t)))
   | ["frag.initcall", v, ty] =>
     (st, match Fragment.isInitializerCall (unhexD v) (unhexD ty) with
       | some b => toString b
